@@ -24,6 +24,32 @@ fn debug_numbers(s: &str) -> Vec<String> {
     out
 }
 
+/// The numbers of one named field of a Debug rendering (`name: 12`, `name: [1.0, 2.0]`), so that the projection does not
+/// depend on the order or number of the struct's fields.
+fn debug_field(d: &str, name: &str) -> Vec<String> {
+    let pat = format!("{name}: ");
+    let mut from = 0;
+    while let Some(i) = d[from..].find(&pat) {
+        let at = from + i;
+        let boundary = at == 0 || !d[..at].chars().last().map(|c| c.is_alphanumeric() || c == '_').unwrap_or(false);
+        if boundary {
+            let rest = &d[at + pat.len()..];
+            let end = if rest.starts_with('[') {
+                rest.find(']').map(|e| e + 1).unwrap_or(rest.len())
+            } else {
+                rest.find([',', '}', '\n']).unwrap_or(rest.len())
+            };
+            return debug_numbers(&rest[..end]);
+        }
+        from = at + pat.len();
+    }
+    vec![]
+}
+
+fn num<T: std::str::FromStr + Default>(v: &[String], i: usize) -> T {
+    v.get(i).and_then(|x| x.parse().ok()).unwrap_or_default()
+}
+
 fn half_slot(f: f32) -> Value {
     f32bits(f)
 }
@@ -81,17 +107,17 @@ fn mtrl(b: &[u8]) -> Value {
     };
     // Constant { id, num_values, values: [f32; 4] } and Sampler { texture_usage, flags, texture_index, .. } are private
     let constants: Vec<Value> = m.constants.iter().map(|c| {
-        let n = debug_numbers(&format!("{c:?}"));
-        let id: u32 = n[0].parse().unwrap_or(0);
-        let nv: u32 = n[1].parse().unwrap_or(0);
-        let vals: Vec<Value> = n[2..6].iter().map(|x| f32bits(x.parse::<f32>().unwrap_or(0.0))).collect();
+        let d = format!("{c:?}");
+        let id: u32 = num(&debug_field(&d, "id"), 0);
+        let nv: u32 = num(&debug_field(&d, "num_values"), 0);
+        let v = debug_field(&d, "values");
+        let vals: Vec<Value> = (0..4).map(|i| f32bits(num::<f32>(&v, i))).collect();
         json!({"id": w32(id), "n": nv, "values": vals})
     }).collect();
     let samplers: Vec<Value> = m.samplers.iter().map(|s| {
         let d = format!("{s:?}");
         let usage = d.split("texture_usage: ").nth(1).and_then(|x| x.split(',').next()).unwrap_or("").to_string();
-        let n = debug_numbers(d.split("flags: ").nth(1).unwrap_or(""));
-        json!({"usage": usage, "flags": w32(n[0].parse().unwrap_or(0)), "texture": n[1].parse::<u32>().unwrap_or(0)})
+        json!({"usage": usage, "flags": w32(num(&debug_field(&d, "flags"), 0)), "texture": num::<u32>(&debug_field(&d, "texture_index"), 0)})
     }).collect();
     some(json!({"shpk": sbytes(&m.shader_package_name),
                 "textures": m.texture_paths.iter().map(|t| sbytes(t)).collect::<Vec<Value>>(),
@@ -117,8 +143,8 @@ fn shpk(b: &[u8], selectors: &Value) -> Value {
                "mat": n.material_keys.iter().map(|x| w32(*x)).collect::<Vec<Value>>(),
                "sub": n.subview_keys.iter().map(|x| w32(*x)).collect::<Vec<Value>>(),
                "passes": n.passes.iter().map(|ps| {
-                   let d = debug_numbers(&format!("{ps:?}"));
-                   json!([w32(d[0].parse().unwrap_or(0)), w32(d[1].parse().unwrap_or(0)), w32(d[2].parse().unwrap_or(0))])
+                   let d = format!("{ps:?}");
+                   json!([w32(num(&debug_field(&d, "id"), 0)), w32(num(&debug_field(&d, "vertex_shader"), 0)), w32(num(&debug_field(&d, "pixel_shader"), 0))])
                }).collect::<Vec<Value>>()})
     };
     let found: Vec<Value> = selectors.as_array().cloned().unwrap_or_default().iter().map(|s| {
@@ -128,8 +154,8 @@ fn shpk(b: &[u8], selectors: &Value) -> Value {
     some(json!({"vs": p.vertex_shaders.iter().map(shader).collect::<Vec<Value>>(),
                 "ps": p.pixel_shaders.iter().map(shader).collect::<Vec<Value>>(),
                 "mat_params": p.material_parameters.iter().map(|m| {
-                    let d = debug_numbers(&format!("{m:?}"));
-                    json!([w32(d[0].parse().unwrap_or(0)), d[1].parse::<u32>().unwrap_or(0), d[2].parse::<u32>().unwrap_or(0)])
+                    let d = format!("{m:?}");
+                    json!([w32(num(&debug_field(&d, "id"), 0)), num::<u32>(&debug_field(&d, "byte_offset"), 0), num::<u32>(&debug_field(&d, "byte_size"), 0)])
                 }).collect::<Vec<Value>>(),
                 "mat_params_size": p.material_parameters_size,
                 "sys_keys": keys(&p.system_keys), "scene_keys": keys(&p.scene_keys), "mat_keys": keys(&p.material_keys),
